@@ -70,3 +70,15 @@ pub fn write_json(path: &str, v: &serde_json::Value) {
 pub fn id_json(id: &[u8]) -> serde_json::Value {
     serde_json::Value::Array(id.iter().map(|b| serde_json::json!(*b)).collect())
 }
+
+static LAST_PANIC: std::sync::Mutex<String> = std::sync::Mutex::new(String::new());
+/// Remember the message of the latest panic anywhere in the process (set from the panic hook).
+pub fn note_panic(msg: &str) {
+    if let Ok(mut g) = LAST_PANIC.lock() {
+        *g = msg.to_string();
+    }
+}
+/// Message of the latest panic (panics of the code under test are data).
+pub fn last_panic() -> String {
+    LAST_PANIC.lock().map(|g| g.clone()).unwrap_or_default()
+}
